@@ -1396,6 +1396,8 @@ def run(chk, cases=None, rejections=None):
                 chk.report({"case": {"kind": "rejection", "name": name}, "impl": got,
                             "what": f"malformed call ({name}) is not rejected with RuntimeError: {got}"})
     source_tie(chk, cases, impls, with_fixed=(not replaying) if rejections is None else rejections)
+    from props.c10_tie import source_tieB  # second source tie: the translated slice_spect_data
+    source_tieB(chk, cases, impls, with_fixed=(not replaying) if rejections is None else rejections)
 
 
 # ----------------------------------------------------------------------------------------------------------
